@@ -46,7 +46,7 @@ func validate(profile, data string, rc config.ReportConfiguration) outcome {
 	select {
 	case o := <-ch:
 		return o
-	case <-time.After(60 * time.Second):
+	case <-time.After(150 * time.Second):
 		return outcome{Kind: "timeout"}
 	}
 }
